@@ -12,7 +12,8 @@ ResShapes == {"ok", "absent", "nometa", "nospec", "badversion", "badphase", "gar
 
 QueryShapes == [lop : LabelOps, nval : {0, 1, 2}, invert : BOOLEAN, re : {"none"}]
                \cup [lop : {"none"}, nval : {0}, invert : {FALSE}, re : {"ok", "bad"}]
-Shapes ==
+(* noopt = TRUE: the request carries no options message at all (every options field of the wire format is optional) *)
+Shapes0 ==
        [rpc : {"Create", "Update"}, res : ResShapes, phase : {"none", "running", "bogus"},
         lop : {"none"}, nval : {0}, invert : {FALSE}, re : {"none"}, w : {"none"}]
   \cup {[rpc |-> "List", res |-> "ok", phase |-> "none", lop |-> q.lop, nval |-> q.nval, invert |-> q.invert, re |-> q.re, w |-> "none"] : q \in QueryShapes}
@@ -23,6 +24,11 @@ Shapes ==
              "kind-bootstrap-and-tail", "kind-api0", "id-api0"}]
   \cup [rpc : {"Get", "Destroy", "Teardown", "TeardownAndDestroy"}, res : {"ok", "absent"}, phase : {"none"},
         lop : {"none"}, nval : {0}, invert : {FALSE}, re : {"none"}, w : {"none"}]
+With(s, b) == [rpc |-> s.rpc, res |-> s.res, phase |-> s.phase, lop |-> s.lop, nval |-> s.nval, invert |-> s.invert,
+               re |-> s.re, w |-> s.w, noopt |-> b]
+Shapes == {With(s, FALSE) : s \in Shapes0}
+     \cup {With(s, TRUE) : s \in {x \in Shapes0 : x.phase = "none" /\ x.lop = "none" /\ x.re = "none"
+                                                  /\ x.w \in {"none", "kind", "kind-agg", "id", "kind-api0", "id-api0"}}}
 
 (* shapes that are malformed in a way the server must answer with an error status *)
 MustReject(s) ==
